@@ -148,6 +148,24 @@ impl Cert {
         }
     }
 
+    /// Signers of the first and of the second aggregate signature, separately.
+    ///
+    /// The second list is empty for certificate types with a single aggregate.
+    #[cfg(feature = "verif-hooks")]
+    #[must_use]
+    pub fn verif_signer_halves(&self) -> (Vec<ValidatorIndex>, Vec<ValidatorIndex>) {
+        fn opt(s: &Option<AggregateSignature>) -> Vec<ValidatorIndex> {
+            s.as_ref().map(|s| s.signers().collect()).unwrap_or_default()
+        }
+        match self {
+            Self::Notar(n) => (n.agg_sig.signers().collect(), Vec::new()),
+            Self::NotarFallback(n) => (opt(&n.agg_sig_notar), opt(&n.agg_sig_notar_fallback)),
+            Self::Skip(s) => (opt(&s.agg_sig_skip), opt(&s.agg_sig_skip_fallback)),
+            Self::FastFinal(f) => (f.agg_sig.signers().collect(), Vec::new()),
+            Self::Final(f) => (f.agg_sig.signers().collect(), Vec::new()),
+        }
+    }
+
     /// Gives the combined stake of the validators who signed this certificate.
     #[must_use]
     pub const fn stake(&self) -> Stake {
